@@ -966,6 +966,8 @@ def _read_unicode_escape_seq(ctx: ReaderContext) -> str:
 
     unicode_hex = "".join(unicode_escape_seq)
     if len(unicode_hex) not in {4, 8}:
+        if char == "":
+            raise ctx.eof_error("Unexpected EOF in unicode escape sequence")
         raise ctx.syntax_error(
             f"Unicode escape sequence must be exactly 4 or 8 hex digits; got '{unicode_hex}'"
         )
@@ -985,6 +987,8 @@ def _read_str(ctx: ReaderContext, raw_string: bool = False) -> str:
             raise ctx.eof_error("Unexpected EOF in string")
         if char == "\\":
             char = reader.next_char()
+            if char == "":
+                raise ctx.eof_error("Unexpected EOF in string")
             if raw_string:
                 s.append("\\")
             elif (escape_char := _STR_ESCAPE_CHARS.get(char, None)) is not None:
